@@ -1,7 +1,202 @@
-(* Properties/C43.v -- STUB, replaced below *)
+(* Properties/C43.v -- Incremental uploads keep the remote directory equal to
+   the uploaded tree (breezy/plugins/upload/cmds.py, BzrUploader).
+   Statements only.  Model: Model/Upload.v over Lib/FS43.v; proofs: Theory/Upload*.v.
+
+     look f p            what the remote directory f has at path p
+     tlook t p           what the revision tree t has at path p
+     run prog (ust0 f)   the uploader commands executed on the remote f
+     [NMark]             the marker file .bzr-upload.revid
+
+   The literal statement ("after ANY sequence of adds, deletes, renames incl.
+   swaps, kind changes ... the remote equals the tree") is FALSE of the code:
+   see the _refuted theorems (each witness was replayed on the real uploader).
+   It holds under the executable guard [upload_guard] (Theory/UploadExact.v). *)
 From Coq Require Import NArith List Bool.
-From BV Require Import Lib.Bytes Lib.FS43 Model.Upload.
+From BV Require Import Lib.Bytes Lib.FS43 Model.Upload
+  Theory.UploadMoves Theory.UploadPhases Theory.UploadRenames Theory.UploadItems
+  Theory.UploadExact Theory.UploadFull Theory.UploadFrame.
 Import ListNotations.
-Theorem C43_stub : forall a, path_eqb a a = true.
-Proof. exact path_eqb_refl. Qed.
-Print Assumptions C43_stub.
+
+(* --- the crux: on ANY remote, executing moves one after the other (each one
+   optionally preceded by an upload to its source) realises the SIMULTANEOUS
+   move of the sub-trees, provided sources and targets are prefix-incomparable
+   and the targets are free.  Instantiated twice by the uploader: old paths ->
+   fresh temporaries, temporaries -> new paths.  Swaps, cycles and chains of
+   files and of whole directories are permutations realised this way. *)
+Theorem C43_rename_staging_simultaneous :
+  forall ml f, dom_ok f -> moves_pre ml f ->
+  exists f', moves ml f = (f', None) /\ dom_ok f' /\
+             forall p, look f' p = moved ml (look f) p.
+Proof. exact moves_simultaneous. Qed.
+Print Assumptions C43_rename_staging_simultaneous.
+
+(* stage ; finish  =  every renamed sub-tree appears at its new path, the old
+   paths are vacated, nothing else changes, no temporary is left *)
+Theorem C43_stage_finish_is_renaming :
+  forall prs h,
+  NoDup (map fst prs) ->
+  (forall kc, In kc prs -> clean_hd (oldp kc) = true /\ clean_hd (newp kc) = true) ->
+  (forall k s, h (Tmp k :: s) = None) ->
+  forall p, moved (map finP prs) (moved (map stageP prs) h) p = ren_formP prs h p.
+Proof. exact stage_finish_form. Qed.
+Print Assumptions C43_stage_finish_is_renaming.
+
+(* --- incremental upload, every pair of trees that passes the guard, every
+   remote that holds the old tree: no exception, the remote holds exactly the
+   new tree, the marker names the new revision, nothing is left pending *)
+Theorem C43_incremental_exact_guarded :
+  forall old new revid f,
+  upload_guard old new = true ->
+  dom_ok f ->
+  (forall p, p <> [NMark] -> look f p = tlook old p) ->
+  look f [NMark] <> Some Dir ->
+  exists u', run (upload_incremental old new revid) (ust0 f) = (u', None) /\
+             (forall p, p <> [NMark] -> look (ufs u') p = tlook new p) /\
+             look (ufs u') [NMark] = Some (File [revid] false) /\
+             pdel u' = [] /\ pren u' = [] /\ dom_ok (ufs u').
+Proof. exact incremental_exact. Qed.
+Print Assumptions C43_incremental_exact_guarded.
+
+(* any number of commits, each followed by an incremental upload *)
+Theorem C43_upload_sequence_exact_guarded :
+  forall ts prev k f,
+  guard_chain prev ts = true -> dom_ok f ->
+  (forall p, p <> [NMark] -> look f p = tlook prev p) -> look f [NMark] <> Some Dir ->
+  exists f', incr_chain prev ts k f = (f', None) /\
+             forall p, p <> [NMark] -> look f' p = tlook (last ts prev) p.
+Proof. exact chain_exact. Qed.
+Print Assumptions C43_upload_sequence_exact_guarded.
+
+(* the guard is satisfiable by the interesting cases: swap, 3-cycle with
+   modifications, two directories swapped with their content, deferred
+   deletions of nested directories, kind changes + additions below a renamed
+   directory *)
+Theorem C43_guard_examples :
+  upload_guard (mkt [mkent 1 [nA] fileA; mkent 2 [nB] fileB])
+               (mkt [mkent 1 [nB] fileA; mkent 2 [nA] fileB]) = true /\
+  upload_guard (mkt [mkent 1 [nA] fileA; mkent 2 [nB] fileB; mkent 3 [nC] fileA])
+               (mkt [mkent 1 [nB] fileB; mkent 2 [nC] fileB; mkent 3 [nA] fileA]) = true /\
+  upload_guard (mkt [mkent 1 [nA] Dir; mkent 2 [nA; nC] fileA; mkent 3 [nB] Dir; mkent 4 [nB; nD] fileB])
+               (mkt [mkent 1 [nB] Dir; mkent 2 [nB; nC] fileA; mkent 3 [nA] Dir; mkent 4 [nA; nD] fileB]) = true /\
+  upload_guard (mkt [mkent 1 [nD] Dir; mkent 2 [nD; nA] fileA; mkent 3 [nD; nE] Dir; mkent 4 [nD; nE; nC] fileA])
+               (mkt []) = true.
+Proof.
+  split; [exact guard_swap|]. split; [exact guard_cycle_modify|].
+  split; [exact guard_dir_swap|exact guard_deferred_deletions].
+Qed.
+Print Assumptions C43_guard_examples.
+
+(* --- the unguarded statement is false: valid trees old, new such that the
+   incremental upload from a remote holding exactly old raises, or ends
+   normally with a remote different from new *)
+(* rename + chmod: the exec bit is silently lost *)
+Theorem C43_incremental_exact_refuted : incr_refuted w_exec_old w_exec_new.
+Proof. exact refuted_rename_exec. Qed.
+Print Assumptions C43_incremental_exact_refuted.
+(* rename + kind change: an empty file instead of the directory, silently *)
+Theorem C43_rename_kind_change_refuted : incr_refuted w_exec_old w_kind_new.
+Proof. exact refuted_rename_kind. Qed.
+Print Assumptions C43_rename_kind_change_refuted.
+(* rename + new symlink target: an empty file instead of the symlink, silently *)
+Theorem C43_rename_retarget_refuted : incr_refuted w_retarget_old w_retarget_new.
+Proof. exact refuted_rename_retarget. Qed.
+Print Assumptions C43_rename_retarget_refuted.
+(* a directory and an entry in it renamed by the same revision: NoSuchFile *)
+Theorem C43_nested_rename_refuted : incr_refuted w_nested_old w_nested_new.
+Proof. exact refuted_nested_rename. Qed.
+Print Assumptions C43_nested_rename_refuted.
+(* an entry moved into a directory added by the same revision: NoSuchFile *)
+Theorem C43_rename_into_new_dir_refuted : incr_refuted w_exec_old w_newdir_new.
+Proof. exact refuted_rename_into_new_dir. Qed.
+Print Assumptions C43_rename_into_new_dir_refuted.
+(* a directory renamed onto the path of a removed directory: it is deleted, silently *)
+Theorem C43_rename_onto_removed_dir_refuted : incr_refuted w_onto_old w_onto_new.
+Proof. exact refuted_rename_onto_removed_dir. Qed.
+Print Assumptions C43_rename_onto_removed_dir_refuted.
+(* kind change / removed sub-directory below a renamed directory: NoSuchFile *)
+Theorem C43_kind_change_under_rename_refuted : incr_refuted w_nested_old w_kcsub_new.
+Proof. exact refuted_kind_change_under_rename. Qed.
+Print Assumptions C43_kind_change_under_rename_refuted.
+Theorem C43_removed_subdir_under_rename_refuted : incr_refuted w_rmsub_old w_rmsub_new.
+Proof. exact refuted_removed_subdir_under_rename. Qed.
+Print Assumptions C43_removed_subdir_under_rename_refuted.
+(* symlinks: added below the root -> InvalidURL; target modified -> FileExists *)
+Theorem C43_symlink_in_subdir_refuted : incr_refuted w_lnsub_old w_lnsub_new.
+Proof. exact refuted_symlink_in_subdir. Qed.
+Print Assumptions C43_symlink_in_subdir_refuted.
+Theorem C43_symlink_modified_refuted : incr_refuted w_retarget_old w_lnmod_new.
+Proof. exact refuted_symlink_modified. Qed.
+Print Assumptions C43_symlink_modified_refuted.
+
+(* --- full upload: exact on an empty remote (ignored paths and the ignore
+   file itself are not uploaded); the side condition is about the environment's
+   iter_entries_by_dir order (every entry once, parents first) *)
+Theorem C43_full_exact_guarded :
+  forall t k f,
+  full_ok t = true -> dom_ok f ->
+  (forall p, p <> [NMark] -> look f p = None) -> look f [NMark] <> Some Dir ->
+  exists u', run (upload_full t k) (ust0 f) = (u', None) /\
+             (forall p, p <> [NMark] ->
+                look (ufs u') p = if skipb t p then None else tlook t p) /\
+             look (ufs u') [NMark] = Some (File [k] false).
+Proof. exact full_exact. Qed.
+Print Assumptions C43_full_exact_guarded.
+
+Theorem C43_full_ok_example :
+  full_ok (mktree [mkent 9 [NIgn] (File [99; 10]%N false); mkent 1 [nD] Dir; mkent 2 [nD; nA] fileA;
+                   mkent 3 [nD; nE] (Link nT); mkent 4 [nC] fileB; mkent 5 [nD; nC] fileA] [nC]) = true.
+Proof. exact full_ok_example. Qed.
+Print Assumptions C43_full_ok_example.
+
+(* on a remote that already holds another tree a full upload is not exact:
+   stale files stay; a symlink cannot replace a regular file *)
+Theorem C43_full_exact_refuted :
+  exists old new, valid_tree old = true /\ valid_tree new = true /\
+    forall k, ~ exact_run (run (upload_full new k) (ust0 (fs_of old))) new.
+Proof. exact refuted_full_keeps_stale. Qed.
+Print Assumptions C43_full_exact_refuted.
+Theorem C43_full_symlink_over_file_refuted :
+  exists old new, valid_tree old = true /\ valid_tree new = true /\
+    forall k, ~ exact_run (run (upload_full new k) (ust0 (fs_of old))) new.
+Proof. exact refuted_full_symlink_over_file. Qed.
+Print Assumptions C43_full_symlink_over_file_refuted.
+
+(* --- ignored paths and the marker.  ANY program of uploader commands (so:
+   incremental and full, all trees, no guard), any remote, normal or
+   exceptional end: nothing changes outside the sub-trees rooted at the paths
+   the commands name (and no temporary is visible there) ... *)
+Theorem C43_ignored_and_marker_untouched :
+  forall prog f u' e q,
+  run prog (ust0 f) = (u', e) -> outside (flat_map cmd_roots prog) q ->
+  look (ufs u') q = look f q.
+Proof. exact upload_frame. Qed.
+Print Assumptions C43_ignored_and_marker_untouched.
+
+(* ... and the incremental upload names only: the marker, paths that are not
+   ignored, the two ends of a rename that crosses the ignore boundary, and the
+   old path of a kind change whose new path is not ignored *)
+Theorem C43_operands_not_ignored :
+  forall old new k r,
+  In r (flat_map cmd_roots (upload_incremental old new k)) ->
+  r = [NMark] \/ is_ignored new r = false \/ boundary old new r \/ kc_boundary old new r.
+Proof. exact incr_roots_spec. Qed.
+Print Assumptions C43_operands_not_ignored.
+
+(* the marker is written last: when the incremental upload raises, the marker
+   still names the previously uploaded revision; when it ends normally it names
+   the new one (all trees, any remote, no guard) *)
+Theorem C43_marker_written_last :
+  forall old new k f u' e,
+  forallb clean_hd (map epath (ents old)) = true ->
+  forallb clean_hd (map epath (ents new)) = true ->
+  run (upload_incremental old new k) (ust0 f) = (u', Some e) ->
+  look (ufs u') [NMark] = look f [NMark].
+Proof. exact marker_written_last. Qed.
+Print Assumptions C43_marker_written_last.
+
+Theorem C43_marker_set_on_success :
+  forall old new k f u',
+  run (upload_incremental old new k) (ust0 f) = (u', None) ->
+  look (ufs u') [NMark] = Some (File [k] false).
+Proof. exact marker_set_on_success. Qed.
+Print Assumptions C43_marker_set_on_success.
